@@ -283,6 +283,13 @@ def _returns_cached_instead_of_argument(fn, st) -> bool:
     return False
 
 
+# parameters of make_check_expr that may stay outside the memo key, one reason each
+KEY_EXEMPT_PARAMS = {
+    'call_curr': 'call metadata (scope for forward references / recursion): every reducer that consults it returns a '
+                 'HintSane with is_check_expr_cacheable=False, which is conjoined into the flag guarding the store',
+}
+
+
 def _key_completeness(ctx):
     ctx.rule('C14.R1', 'key completeness of the explicit memo tables: the key tuple contains every parameter of the '
              'memoised computation, except parameters that only influence the result through a callee whose '
@@ -299,7 +306,12 @@ def _key_completeness(ctx):
         if p in in_key:
             ctx.ob('C14.R1', f'make_check_expr:param:{p}', m.where(keys[0]), f'{p} is part of the memo key', True)
             continue
-        # allowed only if its influence is tracked by the cacheability flag
+        # allowed only for the reviewed context parameters whose influence is tracked by the cacheability flag
+        if p not in KEY_EXEMPT_PARAMS:
+            ctx.ob('C14.R1', f'make_check_expr:param:{p}', m.where(keys[0]), f'{p} is part of the memo key', False,
+                   f'{p} is not in CACHE_KEY = {norm(keys[0].value)}: a later call with another {p} is answered with the '
+                   f'expression generated for the first one')
+            continue
         hm = repo.mod('beartype._check.cls.hint.tree.hinttreecode')
         sf = repo.find_def(hm.name, 'HintTreeCode.sanify_hint_child')
         conj = any(isinstance(a, ast.AugAssign) and isinstance(a.op, ast.BitAnd) and norm(a.target) == 'self.is_check_expr_cacheable'
